@@ -302,3 +302,7 @@ for cls in ('pmutt.reaction:ChemkinReaction', 'pmutt.omkm.reaction:SurfaceReacti
                              ensures=[('same-direction-and-conditions',
                                        'result == self.get_%s_act(rev=rev, T=T, P=P) * const.R(%r) * T' % (dimless, units))],
                              cross_check=False)
+
+# ---- the shared helpers this property's code goes through (keyword forwarding, compositions, per-mass R) ------------------
+from contracts import helpers
+helpers.install(P, 'kwargs', 'formula', 'per_mass')
